@@ -510,3 +510,12 @@ func newConnPair() (transfer.Conn, transfer.Conn) {
 	}
 	return tc, transferquic.VerifWrapConn(sv, discardLogger)
 }
+
+// wrapPair wraps an existing vquic pair with the repository's transferquic types.
+func wrapPair(cl, sv *quic.Conn) (transfer.Conn, transfer.Conn) {
+	tc, err := transferquic.NewDialer(cl, discardLogger).Dial(context.Background(), "peer")
+	if err != nil {
+		panic(err)
+	}
+	return tc, transferquic.VerifWrapConn(sv, discardLogger)
+}
